@@ -70,7 +70,13 @@ func VerifC20dDialAddrWiring() {
 	VerifHook_blackHoleDetector_RecordResult = func(d *blackHoleDetector, a ma.Multiaddr, ok bool) { recs = append(recs, rec{a, ok}) }
 	defer func() { VerifHook_Swarm_TransportForDialing, VerifHook_blackHoleDetector_RecordResult = nil, nil }()
 	s := &Swarm{local: "self"}
-	ctx, cancel := context.WithCancel(context.Background())
+	ctx, cancelCause := context.WithCancelCause(context.Background())
+	var why error // a plain cancellation, or the one the dial worker issues when another dial to the peer has won
+	if vBool() {
+		why = errConcurrentDialSuccessful
+		vCover("cancelled-because-another-dial-won")
+	}
+	cancel := func() { cancelCause(why) }
 	defer cancel()
 	switch vCase(3) {
 	case 1:
